@@ -42,7 +42,9 @@ def stream_credit_job(ctx):
         trans += g["states"]
     if not ctx.thorough:
         args += ["--max-per-file", "40"]
-    r = ctx.harness("c02h3c", args, name="c02h3c", env={"VERIF_ROOT": ROOT}, timeout=900)
+    # (+ --ticks: one tunnel with an idle timeout of 12 / 30 ms, one direction streaming, the silent one expiring: Pipe.tla's TimedOut
+    #  dropping and restarting the pending futures of the HTTP/3 stream halves; the relayed stream must stay a correct prefix)
+    r = ctx.harness("c02h3c", args + ["--ticks"], name="c02h3c", env={"VERIF_ROOT": ROOT}, timeout=900)
     c = r["counters"]
     aborted = any("aborted by the watchdog" in n or "process died" in n for n in r.get("notes", []))
     if not aborted:
